@@ -268,6 +268,12 @@ fn entry_size_u128(k: &TKey, v: &TVal, base: usize) -> u128 { k.heap as u128 + v
 
 /// Drives an iterator: the next/next_back calls, then the finishing call (one of Iterator's provided methods, which a
 /// library may override), then drop or forget. `$conv` turns an item into a `Yield` (and parks owned items).
+thread_local! { static PENDING_ALLOC_FAIL: std::cell::Cell<u64> = std::cell::Cell::new(0); }
+/// The next rebuilding operation (reserve, shrink_to, shrink_to_fit, insert) has its n-th allocation refused. Armed right
+/// before the library is entered and disarmed as soon as it returns, so that the harness' own allocations are not hit.
+pub fn set_pending_alloc_fail(n: u64) { PENDING_ALLOC_FAIL.with(|p| p.set(n)); }
+fn arm_pending_alloc_fail() { let n = PENDING_ALLOC_FAIL.with(|p| p.replace(0)); if n > 0 { valloc::fail_nth(n); } }
+
 macro_rules! drive {
     ($it:expr, $calls:expr, $forget:expr, $fin:expr, $out:expr, |$x:ident| $conv:expr) => {{
         let mut it = $it;
@@ -322,7 +328,10 @@ pub fn apply<S: HB>(caches: &mut Vec<Cache<S>>, cur: &mut usize, op: &Op, held: 
             Op::Insert { id, kh, vh } => {
                 let k = TKey::new(*id, *kh); let v = TVal::new(*vh);
                 out.in_k = Some(k.uid); out.in_v = Some(v.uid);
-                match caches[*cur].insert(k, v) {
+                arm_pending_alloc_fail();
+                let r = caches[*cur].insert(k, v);
+                out.alloc_failed = valloc::fail_off();
+                match r {
                     Ok(None) => out.tag = "ok_none",
                     Ok(Some(old)) => { out.tag = "ok_some"; out.v = Some(old.uid); held.vals.push(old); }
                     Err(InsertError::EntryTooLarge { key, value, entry_size, max_size }) => {
@@ -436,7 +445,7 @@ pub fn apply<S: HB>(caches: &mut Vec<Cache<S>>, cur: &mut usize, op: &Op, held: 
                     !reject.contains(&k.id)
                 });
             }
-            Op::Reserve { n } => caches[*cur].reserve(*n),
+            Op::Reserve { n } => { arm_pending_alloc_fail(); caches[*cur].reserve(*n); out.alloc_failed = valloc::fail_off(); }
             Op::TryReserve { n } => match caches[*cur].try_reserve(*n) {
                 Ok(()) => out.tag = "ok",
                 Err(hashbrown::TryReserveError::CapacityOverflow) => out.tag = "err_capacity",
@@ -454,8 +463,8 @@ pub fn apply<S: HB>(caches: &mut Vec<Cache<S>>, cur: &mut usize, op: &Op, held: 
                     Err(hashbrown::TryReserveError::AllocError { .. }) => out.tag = "err_alloc",
                 }
             }
-            Op::ShrinkTo { n } => caches[*cur].shrink_to(*n),
-            Op::ShrinkFit => caches[*cur].shrink_to_fit(),
+            Op::ShrinkTo { n } => { arm_pending_alloc_fail(); caches[*cur].shrink_to(*n); out.alloc_failed = valloc::fail_off(); }
+            Op::ShrinkFit => { arm_pending_alloc_fail(); caches[*cur].shrink_to_fit(); out.alloc_failed = valloc::fail_off(); }
             Op::Clear => caches[*cur].clear(),
             Op::Iterate { kind, calls, forget, fin } => {
                 match *kind {
@@ -489,6 +498,7 @@ pub fn apply<S: HB>(caches: &mut Vec<Cache<S>>, cur: &mut usize, op: &Op, held: 
         }
     }));
     valloc::fail_off();
+    set_pending_alloc_fail(0);
     out.drops = window_end();
     if let Err(e) = res {
         let m = panic_msg(e);
